@@ -213,8 +213,19 @@ def make_shell(rng, tier):
     probe = factory(); probe._rebuild()
     n = probe.get_size() - len(probe.excluded_dofs)
     h = d['plyt'] * len(d['stack'])
-    ctx = {'c': rng.normal(size=n) * h * 0.05, 'xs': rng.uniform(0, d['L'], 6), 'ts': rng.uniform(0, 6.28, 6)}
+    # a prescribed twist and a load factor != 1: the full-size amplitude vector then carries prescribed entries that the
+    # class scales by the load factor on its way in
+    d['thetaTdeg'] = float(rng.choice([-1, 1]) * rng.uniform(0.01, 0.2))
+    inc = float(rng.uniform(0.3, 0.9))
+    desc['inc'] = inc
+    ctx = {'c': rng.normal(size=n) * h * 0.05, 'xs': rng.uniform(0, d['L'], 6), 'ts': rng.uniform(0, 6.28, 6),
+           'cfull': rng.normal(size=probe.get_size()) * h * 0.05}
     ops = [
+        Op('uvw(full,inc)', lambda s, x: s.uvw(x['cfull'], xs=x['xs'], ts=x['ts'], inc=inc), inputs=('cfull', 'xs', 'ts')),
+        Op('strain(full,inc)', lambda s, x: s.strain(x['cfull'], xs=x['xs'], ts=x['ts'], inc=inc), inputs=('cfull', 'xs', 'ts')),
+        Op('stress(full,inc)', lambda s, x: s.stress(x['cfull'], xs=x['xs'], ts=x['ts'], inc=inc), inputs=('cfull', 'xs', 'ts')),
+        Op('calc_fint(inc)', lambda s, x: np.asarray(s.calc_fint(x['c'], inc=inc, silent=True)), inputs=('c',)),
+        Op('calc_kT(inc)', lambda s, x: s.calc_kT(x['c'], inc=inc, silent=True), inputs=('c',)),
         Op('calc_k0', lambda s, x: s.calc_k0(silent=True)),
         Op('calc_fext', lambda s, x: s.calc_fext(silent=True)),
         Op('static', lambda s, x: s.static(silent=True)),
